@@ -8,6 +8,8 @@ event = ['sub', pid, 'plain', x] | ['sub', pid, 'list', [x..]] | ['sub', pid, 'i
       | ['py', pid, x] | ['pf', pid] | ['pe', pid]            scripted yield / failure / end of an async producer
       | ['adv', dt] | ['wait', w, cancel] | ['ok'] | ['fail'] | ['shutdown']
       | ['fclear'] | ['fput', pid, kind...] | ['okfclear']     foreign-thread halves of _put
+      | ['subwait', pid, w, cancel, kind...]   submit and `await wait(cancel=..)` in ONE step of one task, with no
+                                               loop iteration in between (model: Submit pid kind ; Wait w cancel)
 obs   = one list per event, entries
         ['start', callno, sorted set, tick] | ['end', callno, ok, sorted set re-read at the end]
       | ['wret', w, tick, n_successful_calls_so_far] | ['werr', w] | ['dead'] | ['hang'] | ['late', ...]
@@ -18,6 +20,21 @@ the next ['ok'] / ['fail']; asynchronous producers take their yields / failure /
 end from the script (actions that arrive before the library iterates the
 producer are kept and handed over as soon as it does).  Events after the first
 ['shutdown'] are not applied (the model does the same).
+
+Producer failures come in two flavours, chosen by the parity of the producer id:
+an ordinary Exception (even ids) and asyncio.CancelledError raised by the producer
+itself / a cancelled awaitable (odd ids) — the buffer must treat both as "this
+producer failed", its own task is not being cancelled.
+
+Foreign-thread submissions.  A matched pair ['fclear'] ... ['fput', pid, kind..]
+(and ['okfclear'] ... ['fput', ..]) is ONE real foreign thread calling the public
+API (buffer(x) / map / await_ / amap): the thread is parked in front of each of
+the two shared-state operations of BufferAsyncCalls._put — `self.event.clear()`
+and `self.loop.call_soon_threadsafe(...)`, both reached through the public
+attributes `event` / `loop`, which the driver swaps for gated stand-ins — and the
+first event of the pair lets it perform the FIRST operation it reaches, the
+second event the SECOND.  The model says the first is the clear and the second
+the put.  An unmatched 'fclear' / 'fput' is performed directly as before.
 """
 from __future__ import annotations
 
@@ -70,6 +87,91 @@ def _pool_threads_alive():
     return any(t.name.startswith('ThreadPoolExecutor') for t in threading.enumerate())
 
 
+class _ForeignPut:
+    """One foreign thread going through BufferAsyncCalls._put, parked before each gated operation."""
+
+    def __init__(self, thunk):
+        import queue
+        self.reached = queue.Queue()
+        self.done = queue.Queue()
+        self.go = threading.Semaphore(0)
+        self.err = []
+        self.ended = False
+
+        def body():
+            try:
+                thunk()
+            except BaseException as e:      # e.g. loop closed at the very end
+                self.err.append(e)
+            finally:
+                self.reached.put('end')
+        self.thread = threading.Thread(target=body, name='foreign-put')
+
+    def gate(self, opname, do):
+        self.reached.put(opname)
+        self.go.acquire()
+        try:
+            return do()
+        finally:
+            self.done.put(opname)
+
+    def start_and_first(self):
+        """start the thread and let it perform the first gated operation it reaches"""
+        self.thread.start()
+        self._one()
+
+    def second(self):
+        self._one()
+
+    def _one(self):
+        if self.ended:
+            return
+        op = self.reached.get()
+        if op == 'end':
+            self.ended = True
+            self.thread.join()
+            return
+        self.go.release()
+        self.done.get()
+
+    def finish(self):
+        while not self.ended:
+            self._one()
+
+
+def _current_fp(run):
+    t = threading.current_thread()
+    for fp in run.fputs:
+        if fp.thread is t:
+            return fp
+    return None
+
+
+class _GatedEvent(asyncio.Event):
+    _run = None
+
+    def clear(self):
+        fp = _current_fp(self._run) if self._run is not None else None
+        if fp is None:
+            return super().clear()
+        return fp.gate('clear', super().clear)
+
+
+class _LoopProxy:
+    def __init__(self, loop, run):
+        object.__setattr__(self, '_loop', loop)
+        object.__setattr__(self, '_run', run)
+
+    def __getattr__(self, name):
+        return getattr(self._loop, name)
+
+    def call_soon_threadsafe(self, *a, **kw):
+        fp = _current_fp(self._run)
+        if fp is None:
+            return self._loop.call_soon_threadsafe(*a, **kw)
+        return fp.gate('put', lambda: self._loop.call_soon_threadsafe(*a, **kw))
+
+
 class Run:
     SHUTDOWN_TAIL = 3       # after a shutdown: advance 3*T+3 ticks to expose a daemon that lives on
 
@@ -86,6 +188,10 @@ class Run:
         self.tasks = []         # tasks in creation order (for the deterministic shutdown)
         self.shut = False
         self.wtasks = {}
+        self.fputs = []         # foreign threads going through _put
+        self.fmatch = {}        # script index of a 'fclear'/'okfclear' -> (script index, event) of the matching 'fput'
+        self.fthread = {}       # script index of a 'fput' -> the thread parked before its second operation
+        self.idx = -1
 
     # -- harness-owned user code -------------------------------------------
     async def fn(self, inputs):
@@ -114,6 +220,8 @@ class Run:
             if a[0] == 'y':
                 yield a[1]
             elif a[0] == 'f':
+                if p.pid % 2:
+                    raise asyncio.CancelledError()      # the producer's own failure, nobody cancels the buffer
                 raise ProdErr(f'producer {p.pid} failed')
             else:
                 return
@@ -144,10 +252,32 @@ class Run:
         raise ValueError(kind)
 
     def handler(self, ev):
+        self.idx = self.sim.step
         if self.shut:
             return
         k = ev[0]
         sim, b = self.sim, self.buffer
+        if k == 'subwait':
+            pid, w, cancel = ev[1], ev[2], bool(ev[3])
+            if pid in self.seen:
+                submit = None
+            else:
+                self.seen.add(pid)
+                submit = self.make_producer(['sub', pid] + list(ev[4:]))[0]
+
+            async def subwaiter():
+                if submit is not None:
+                    submit()
+                try:
+                    await b.wait(cancel=cancel)
+                except asyncio.CancelledError:
+                    raise
+                except BaseException:
+                    sim.obs('werr', w)
+                    return
+                sim.obs('wret', w, sim.ticks(), self.nok)
+            self.wtasks[w] = sim.loop.create_task(subwaiter())
+            return
         if k == 'sub':
             if ev[1] in self.seen:
                 return
@@ -163,6 +293,8 @@ class Run:
                 p.closed = True
                 if k == 'py':
                     p.fut.set_result(ev[2])
+                elif p.pid % 2:
+                    p.fut.cancel()         # a cancelled awaitable: CancelledError out of the producer
                 else:
                     p.fut.set_exception(ProdErr(f'awaitable {p.pid} failed'))
                     p.fut.exception()      # mark retrieved: no "never retrieved" logging noise
@@ -206,20 +338,27 @@ class Run:
                 # the daemon has set the event, i.e. from the Event's own set()
                 ev_obj = b.event
                 orig_set = ev_obj.set
+                here = self.idx
 
                 def set_then_foreign_clear():
                     orig_set()
                     ev_obj.set = orig_set
-                    self._foreign(ev_obj.clear)
+                    self._first_half(here)
                 ev_obj.set = set_then_foreign_clear
         elif k == 'fclear':
-            self._foreign(b.event.clear)
+            self._first_half(self.idx)
         elif k == 'fput':
+            fp = self.fthread.pop(self.idx, None)
+            if fp is not None:
+                # second half of a foreign thread that is parked inside _put
+                fp.second()
+                fp.finish()
+                return
             if ev[1] in self.seen:
                 return
             self.seen.add(ev[1])
             it = self.make_producer(ev)[1]()
-            self._foreign(lambda: b.loop.call_soon_threadsafe(b.q.put_nowait, it))
+            self._foreign(lambda: self._real_loop.call_soon_threadsafe(b.q.put_nowait, it))
         elif k == 'shutdown':
             self.shut = True
             # what asyncio.runners._cancel_all_tasks(loop) does, in creation order
@@ -230,6 +369,20 @@ class Run:
                 t.cancel()
         else:
             raise ValueError(ev)
+
+    def _first_half(self, idx):
+        """first half of a foreign submission: through the real _put when a later 'fput' completes
+        it, else a bare foreign event.clear()"""
+        m = self.fmatch.get(idx)
+        if m is None:
+            self._foreign(lambda: asyncio.Event.clear(self.buffer.event))
+            return
+        j, pev = m
+        self.seen.add(pev[1])
+        fp = _ForeignPut(self.make_producer(pev)[0])
+        self.fputs.append(fp)
+        self.fthread[j] = fp
+        fp.start_and_first()
 
     def _foreign(self, thunk):
         """Run thunk in a real second thread while the loop thread is parked here."""
@@ -263,6 +416,18 @@ class Run:
         if shut_at is not None:
             script.append(('adv', self.SHUTDOWN_TAIL * self.T + 3))
         self.seen = set()
+        # pair every foreign first half with the next unused 'fput' (FIFO), unique fresh pids only
+        used_pids = set()
+        open_firsts = []
+        for i, e in enumerate(script[:n_applied]):
+            if e[0] in ('sub', 'subwait'):
+                used_pids.add(e[1])
+            elif e[0] in ('fclear', 'okfclear'):
+                open_firsts.append(i)
+            elif e[0] == 'fput':
+                if e[1] not in used_pids and open_firsts:
+                    self.fmatch[open_firsts.pop(0)] = (i, e)
+                used_pids.add(e[1])
 
         def before():
             loop = sim.loop
@@ -274,6 +439,14 @@ class Run:
             loop.set_task_factory(factory)
             loop.set_exception_handler(lambda lp, ctx: None)
             self.buffer = BufferAsyncCalls(self.fn, timeout=self.T * TICK)
+            # gated stand-ins for the two public attributes _put goes through
+            self._real_loop = self.buffer.loop
+            ge = _GatedEvent()
+            ge._run = self
+            if self.buffer.event.is_set():
+                ge.set()
+            self.buffer.event = ge
+            self.buffer.loop = _LoopProxy(self._real_loop, self)
             d = self.buffer._waiting
             self.tasks.insert(0, d)
             d.add_done_callback(lambda t: (sim.obs('dead'), self._consume(t)))
@@ -300,6 +473,8 @@ class Run:
             return out
         finally:
             try:
+                for fp in self.fputs:
+                    fp.finish()
                 for _, _, fut in self.running:
                     if not fut.done():
                         fut.cancel()
@@ -394,9 +569,27 @@ def ob_coq(o):
     return 'Hang'          # hang, werr, spin: nothing the model ever produces
 
 
+def expand(evs, obs=None):
+    """driver events -> model events (a 'subwait' is Submit ; Wait), observations re-aligned: the
+    Submit half of a subwait shows nothing (the model never observes anything in a Submit step)"""
+    out_e, out_o = [], []
+    for i, e in enumerate(evs):
+        o = obs[i] if obs is not None and i < len(obs) else []
+        if e[0] == 'subwait':
+            out_e.append(['sub', e[1]] + list(e[4:]))
+            out_o.append([])
+            out_e.append(['wait', e[2], e[3]])
+            out_o.append(o)
+        else:
+            out_e.append(e)
+            out_o.append(o)
+    return out_e, out_o
+
+
 def to_coq(case, obs):
-    evs = C.coq_list([ev_coq(e) for e in case['evs']])
-    ob = C.coq_list([C.coq_list([ob_coq(o) for o in step]) for step in obs['obs']])
+    mevs, mobs = expand(case['evs'], obs['obs'])
+    evs = C.coq_list([ev_coq(e) for e in mevs])
+    ob = C.coq_list([C.coq_list([ob_coq(o) for o in step]) for step in mobs])
     return f"Case {C.coq_N(case['T'])} {evs} {ob}"
 
 
@@ -405,7 +598,7 @@ def error_obs(case, o):
 
 
 def explain_exprs(case, obs):
-    evs = C.coq_list([ev_coq(e) for e in case['evs']])
+    evs = C.coq_list([ev_coq(e) for e in expand(case['evs'])[0]])
     return [f"trace {C.coq_N(case['T'])} {evs}"]
 
 
@@ -444,6 +637,8 @@ def settle_tail(T, evs):
     """closers for every producer still open + [FnOk; Advance T+1; FnOk]"""
     open_ = {}
     for e in evs:
+        if e[0] == 'subwait':
+            e = ['sub', e[1]] + list(e[4:])
         if e[0] in ('sub', 'fput') and e[2] in ('aw', 'async') and e[1] not in open_:
             open_[e[1]] = e[2]
         elif e[0] == 'py' and open_.get(e[1]) == 'aw':
@@ -541,6 +736,9 @@ class Prog:
         elif ch == 'w':
             e = ['wait', self.wid, False]
             self.wid += 1
+        elif ch in 'Bb':                     # buffer(x); await wait(cancel=..) with no loop iteration in between
+            e = ['subwait', self.pid, self.wid, ch == 'B', 'plain', self.fresh()[0]]
+            self.wid += 1
         elif ch == 'X':
             e = ['shutdown']
         elif ch == 'c':
@@ -551,7 +749,7 @@ class Prog:
             e = ['okfclear']
         else:
             raise ValueError(ch)
-        if e[0] in ('sub', 'fput'):
+        if e[0] in ('sub', 'fput', 'subwait'):
             self.pid += 1
         self.evs.append(e)
         return True
@@ -596,7 +794,7 @@ def std_prune(w):
 def distribution(cases, obs):
     d = dict(events=0, submit_plain=0, submit_list=0, submit_iter=0, submit_aw=0, submit_async=0,
              pyield=0, pfail=0, pend=0, advance=0, wait_cancel=0, wait_nocancel=0, fnok=0, fnfail=0,
-             shutdown=0, foreign=0, fn_starts=0, fn_ok=0, fn_failed=0, wait_returns=0,
+             shutdown=0, foreign=0, submit_then_wait=0, fn_starts=0, fn_ok=0, fn_failed=0, wait_returns=0,
              daemon_ended=0, hang=0, T8=0, T100=0, T1024=0, T_other=0, settled_tail=0)
     keymap = {'py': 'pyield', 'pf': 'pfail', 'pe': 'pend', 'adv': 'advance', 'ok': 'fnok', 'fail': 'fnfail',
               'shutdown': 'shutdown', 'fclear': 'foreign', 'fput': 'foreign', 'okfclear': 'foreign'}
@@ -609,6 +807,8 @@ def distribution(cases, obs):
         for e in evs:
             if e[0] == 'sub':
                 d['submit_' + e[2]] += 1
+            elif e[0] == 'subwait':
+                d['submit_then_wait'] += 1
             elif e[0] == 'wait':
                 d['wait_cancel' if e[2] else 'wait_nocancel'] += 1
             else:
